@@ -180,6 +180,9 @@ Definition sub_header_parse (p : bytes) : option (Z * Z * bool * bytes) :=  (* l
   end.
 Definition sub_header_emit (len typeid : Z) (critical : bool) : bytes :=
   encode_length len true 1 ++ int_to_bytes (Z.shiftl (if critical then 1 else 0) 7 + typeid) 1.
+(* the length field of a subpacket header on its own (Model/Fmt.v FSubLen): what sub_header_emit writes in front of
+   the type octet (Proofs/Wire_lemmas2.v sub_header_emit_sub_length) *)
+Definition sub_length (len : Z) : bytes := encode_length len true 1.
 
 (* ---------- S2K coded count ---------- *)
 Definition s2k_count (c : Z) : Z := Z.shiftl (16 + Z.land c 15) (Z.shiftr c 4 + 6).
